@@ -113,13 +113,17 @@ type BundlePropertyExperimenter struct {
 	data             []byte
 }
 
+// Len returns the size of the property on the wire: header and experimenter
+// data, followed by zero bytes up to the next multiple of 8 (the Length field
+// does not count this padding).
 func (p *BundlePropertyExperimenter) Len() uint16 {
 	length := uint16(unsafe.Sizeof(p.Type) + unsafe.Sizeof(p.Length) + unsafe.Sizeof(p.ExperimenterID) + unsafe.Sizeof(p.ExperimenterType))
-	return length + uint16(len(p.data))
+	length += uint16(len(p.data))
+	return (length + 7) / 8 * 8
 }
 
 func (p *BundlePropertyExperimenter) MarshalBinary() (data []byte, err error) {
-	data = make([]byte, 12)
+	data = make([]byte, 12, p.Len())
 	n := 0
 	binary.BigEndian.PutUint16(data[n:], p.Type)
 	n += 2
@@ -132,11 +136,13 @@ func (p *BundlePropertyExperimenter) MarshalBinary() (data []byte, err error) {
 	if p.data != nil {
 		data = append(data, p.data...)
 	}
+	// zero padding to 8 bytes
+	data = data[:p.Len()]
 	return
 }
 
 func (p *BundlePropertyExperimenter) UnmarshalBinary(data []byte) error {
-	if len(data) < int(p.Len()) {
+	if len(data) < 12 {
 		return errors.New("the []byte is too short to unmarshal a full BundlePropertyExperimenter message")
 	}
 	n := 0
@@ -179,7 +185,12 @@ type BundleAdd struct {
 func (b *BundleAdd) Len() (n uint16) {
 	length := uint16(unsafe.Sizeof(b.BundleID) + unsafe.Sizeof(b.Flags))
 	length += uint16(len(b.pad))
-	length += b.Message.Len()
+	msgLen := b.Message.Len()
+	length += msgLen
+	if len(b.Properties) > 0 {
+		// the message is zero-padded so that the properties start on a 64-bit boundary
+		length += (8 - msgLen%8) % 8
+	}
 	if b.Properties != nil {
 		for _, p := range b.Properties {
 			length += p.Len()
@@ -203,6 +214,9 @@ func (b *BundleAdd) MarshalBinary() (data []byte, err error) {
 	}
 	copy(data[n:], msgBytes)
 	n += len(msgBytes)
+	if len(b.Properties) > 0 {
+		n += (8 - len(msgBytes)%8) % 8
+	}
 	if b.Properties != nil {
 		for _, property := range b.Properties {
 			propertyData, err := property.MarshalBinary()
@@ -243,6 +257,8 @@ func (b *BundleAdd) UnmarshalBinary(data []byte) error {
 	// report a different size (an echo's payload is not kept)
 	n += msgLen
 	if n < len(data) {
+		// skip the zero padding between the message and its properties
+		n += (8 - msgLen%8) % 8
 		b.Properties = make([]BundlePropertyExperimenter, 0)
 		for n < len(data) {
 			var property BundlePropertyExperimenter
